@@ -4,12 +4,12 @@ go 1.26.0
 
 require (
 	github.com/bluenviron/gortsplib/v5 v5.0.0
+	github.com/bluenviron/mediacommon/v2 v2.9.3
 	github.com/pion/rtcp v1.2.17
 	github.com/pion/rtp v1.10.5
 )
 
 require (
-	github.com/bluenviron/mediacommon/v2 v2.9.3 // indirect
 	github.com/google/uuid v1.6.0 // indirect
 	github.com/gorilla/websocket v1.5.3 // indirect
 	github.com/pion/logging v0.2.4 // indirect
